@@ -656,7 +656,7 @@ var Exec = &Format{
 	},
 	Enc: func(v Value) ([]byte, bool) {
 		e := v.(ExecMsg)
-		return codex.VerifExecInitBytes(e.Pty, e.Cmd, e.Term, e.HasSize, e.R, e.C, e.X, e.Y), true
+		return codex.VerifWireExecInitBytes(e.Pty, e.Cmd, e.Term, e.HasSize, e.R, e.C, e.X, e.Y), true
 	},
 	Dec: func(b []byte) (Value, int, bool) {
 		rd := bytes.NewReader(b)
@@ -689,10 +689,10 @@ var Exec = &Format{
 // ---------------------------------------------------------------- userauth
 
 func userAuthPrep(b []byte) func() (Value, int, bool) {
-	t := tubes.VerifPreloadedReliable(b)
+	t := tubes.VerifWirePreloadedReliable(b)
 	return func() (Value, int, bool) {
 		s := userauth.GetInitMsg(t)
-		return []byte(s), tubes.VerifUnread(t), true
+		return []byte(s), tubes.VerifWireUnread(t), true
 	}
 }
 
@@ -706,7 +706,7 @@ var UserAuth = &Format{
 		return fill(r, n)
 	},
 	Enc: func(v Value) ([]byte, bool) {
-		b := userauth.VerifInitMsgBytes(string(v.([]byte)))
+		b := userauth.VerifWireInitMsgBytes(string(v.([]byte)))
 		return b, b != nil
 	},
 	Dec:  func(b []byte) (Value, int, bool) { return userAuthPrep(b)() },
@@ -779,12 +779,12 @@ var Pf = &Format{
 	},
 	Enc: func(v Value) ([]byte, bool) {
 		p := v.(PfReq)
-		b := portforwarding.VerifToBytes(p.addr, p.Fwd)
+		b := portforwarding.VerifWireToBytes(p.addr, p.Fwd)
 		return b, b != nil
 	},
 	Dec: func(b []byte) (Value, int, bool) {
 		rd := bytes.NewReader(b)
-		a, fwd, err := portforwarding.VerifReadPacket(rd)
+		a, fwd, err := portforwarding.VerifWireReadPacket(rd)
 		if err != nil {
 			return PfReq{}, rd.Len(), false
 		}
